@@ -216,6 +216,7 @@ type Request struct {
 	AuthScheme string `json:"auth_scheme,omitempty"` // "", "basic", "digest", "unknown"
 	AuthOK     bool   `json:"auth_ok,omitempty"`
 	AuthWhy    string `json:"auth_why,omitempty"` // why it did not verify
+	InForce    string `json:"in_force,omitempty"` // scheme of the camera's latest challenge before this request ("" = none yet)
 	Answer     string `json:"answer"`             // what the camera did: status code, "silence", "rst", …
 }
 
@@ -957,6 +958,7 @@ func (cn *conn) handle(r *Request) bool {
 	sc := &cn.cam.sc
 	step := cn.classify(r)
 	r.Step = step
+	r.InForce = cn.authScheme
 	cn.verify(r)
 	cseq := r.Get("CSeq")
 	record := func(answer string) {
